@@ -195,7 +195,7 @@ def _c03_gen(tier):
 PROPS["C03"] = {
     "level": "model_checking",
     "kani": [{"package": "boa_engine", "flags": ENGINE_FLAGS, "tags": ["c03r"], "generate": _c03_gen,
-              "timeout": {"quick": 600, "thorough": 1200}}],
+              "timeout": {"quick": 1200, "thorough": 1800}}],
     "engines": [_c03_engine],
     "assumptions": COMMON_ASSUME + [
         "C03(b): the PROGRAM quantifier is a corpus (JS literals of the repo's tests + deterministic grammar enumeration + VERIF_SEED-seeded samples), not symbolic; the solver's quantifier is 'all CFG paths of each compiled body'",
@@ -336,8 +336,8 @@ PROPS["C02"] = {
 
 PROPS["C14"] = {
     "level": "model_checking",
-    "kani": [{"package": "boa_engine", "flags": ENGINE_FLAGS + ["--features", "jsvalue-enum"], "tags": ["c14a", "pubhelp"],
-              "timeout": {"quick": 900, "thorough": 1500}}],
+    "kani": [{"package": "boa_engine", "flags": ENGINE_FLAGS + ["--features", "jsvalue-enum"], "tags": ["c14a", "c14b", "pubhelp"],
+              "timeout": {"quick": 1500, "thorough": 1800}}],
     "assumptions": COMMON_ASSUME + [
         "verified in the jsvalue-enum configuration: property_map.rs is representation-independent source, and under the NaN-boxed build every JsValue clone/drop carries heap-pointer arms that make these harnesses intractable (DESIGN.md §9.1, §9.7)",
         "symbolic element payloads are int32; keys are concrete per harness (append, overwrite first/last, remove last, remove absent): a symbolic key keeps the sparse hash-map arms in the formula",
